@@ -159,6 +159,32 @@ theorem asm_arm64_test_gHashBlocks :
 theorem asm_arm64_test_xorN : [16, 32, 64, 128, 256].all Proofs.ISAValArm64GcmTests.xorTest = true :=
   Proofs.ISAValArm64GcmTests.test_xorN
 
+/-! ### non-vacuity: the headline theorems instantiated on concrete entry states -/
+
+section NonVacuity
+set_option maxRecDepth 100000
+
+example : runGhash (ghFuel 9) (ghashState junkG junkV Proofs.ISAValArm64GcmTests.hK Proofs.ISAValArm64GcmTests.tg (Proofs.ISAValArm64GcmTests.dat 9) 9)
+    = .ok ((natToBlock (ghFold (blockToNat (toB Proofs.ISAValArm64GcmTests.hK)) (blockToNat (toB Proofs.ISAValArm64GcmTests.tg)) ((toB (Proofs.ISAValArm64GcmTests.dat 9)).take (16 * 9)))).map (·.toNat)) :=
+  asm_arm64_gHashBlocks_eq_spec junkG junkV Proofs.ISAValArm64GcmTests.hK Proofs.ISAValArm64GcmTests.tg (Proofs.ISAValArm64GcmTests.dat 9) 9 (by decide) (by decide) (by decide) (by decide) (by decide)
+    (by decide) (by decide) (by decide) (by decide) (by decide)
+
+example : runDst Gen.ListArm64Gcm.xor16 Gen.ListArm64GcmArr.xor16_arr (xorState junkG junkV (List.replicate 16 0xEE) (Proofs.ISAValArm64GcmTests.bufA 16) (Proofs.ISAValArm64GcmTests.bufB 16))
+      = .ok (List.zipWith (· ^^^ ·) (Proofs.ISAValArm64GcmTests.bufA 16) (Proofs.ISAValArm64GcmTests.bufB 16))
+    ∧ runDst Gen.ListArm64Gcm.xor16 Gen.ListArm64GcmArr.xor16_arr (xorStateDst1 junkG junkV (Proofs.ISAValArm64GcmTests.bufA 16) (Proofs.ISAValArm64GcmTests.bufB 16))
+      = .ok (List.zipWith (· ^^^ ·) (Proofs.ISAValArm64GcmTests.bufA 16) (Proofs.ISAValArm64GcmTests.bufB 16))
+    ∧ runDst Gen.ListArm64Gcm.xor16 Gen.ListArm64GcmArr.xor16_arr (xorStateDst2 junkG junkV (Proofs.ISAValArm64GcmTests.bufA 16) (Proofs.ISAValArm64GcmTests.bufB 16))
+      = .ok (List.zipWith (· ^^^ ·) (Proofs.ISAValArm64GcmTests.bufA 16) (Proofs.ISAValArm64GcmTests.bufB 16)) :=
+  asm_arm64_xorN_eq 16 _ _ rfl junkG junkV (List.replicate 16 0xEE) (Proofs.ISAValArm64GcmTests.bufA 16) (Proofs.ISAValArm64GcmTests.bufB 16) (by decide) (by decide) (by decide)
+    (by decide) (by decide) (by decide) (by decide)
+
+example : runDst Gen.ListArm64Gcm.xor256 Gen.ListArm64GcmArr.xor256_arr
+      (xorStateDst2 junkG junkV (Proofs.ISAValArm64GcmTests.bufA 256) (Proofs.ISAValArm64GcmTests.bufB 256)) = .ok (List.zipWith (· ^^^ ·) (Proofs.ISAValArm64GcmTests.bufA 256) (Proofs.ISAValArm64GcmTests.bufB 256)) :=
+  (asm_arm64_xorN_eq 256 _ _ rfl junkG junkV (List.replicate 256 0) (Proofs.ISAValArm64GcmTests.bufA 256) (Proofs.ISAValArm64GcmTests.bufB 256) (by decide) (by decide)
+    (by decide) (by decide) (by decide) (by decide) (by decide)).2.2
+
+end NonVacuity
+
 end SMGo.Props.C06Arm64
 
 #print axioms SMGo.Props.C06Arm64.asm_arm64_gHashBlocks_eq_spec
